@@ -2541,7 +2541,14 @@ void abbreviation_from_bracket(const char * source, scratch_pad * scratch, token
 
 
 void read_table_column_alignments(const char * source, token * table, scratch_pad * scratch) {
-	token * walker = table->child->child;
+	// Find the header section -- inside a list item it follows the list marker
+	token * walker = table->child;
+
+	while (walker && (walker->type != BLOCK_TABLE_HEADER)) {
+		walker = walker->next;
+	}
+
+	walker = walker ? walker->child : NULL;
 
 	scratch->table_alignment[0] = '\0';
 	scratch->table_column_count = 0;
